@@ -1,0 +1,11 @@
+// SPDX-FileCopyrightText: 2020 Alvar Penning
+//
+// SPDX-License-Identifier: GPL-3.0-or-later
+
+//go:build !verif
+// +build !verif
+
+package storage
+
+// verifCrashPoint marks a point between two steps of a store operation. It does nothing in regular builds.
+func verifCrashPoint(string) {}
